@@ -26,7 +26,7 @@ LIBS_TOY = [os.path.join(SPEC, d) for d in ("prim/toy", "lib", "algo", "pq", "sy
 
 
 SLOTS = int(os.environ.get("VERIF_SLOTS", "20"))   # machine-wide cap on concurrently busy TLC worker threads
-SLOT_DIR = "/tmp/verif-slots"
+SLOT_DIR = os.environ.get("VERIF_SLOT_DIR", "/tmp/verif-slots")
 
 
 class _Slots:
